@@ -238,6 +238,14 @@ pub fn mkstep(text: String, line: usize, ty: usize) -> gherkin::Step {
     }
 }
 
+/// A step of class `c`; an `ok` step with the `Then` keyword uses the prefix `thn`, whose only
+/// definition is registered for `Then` (definitions are keyword-scoped: nothing but a `Then` lookup
+/// may find it).
+fn mkstep_kw(c: &str, rest: String, line: usize, ty: usize) -> gherkin::Step {
+    let prefix = if c == "ok" && ty % 3 == 2 { "thn" } else { c };
+    mkstep(format!("{prefix} {rest}"), line, ty)
+}
+
 pub fn mkbackground(steps: Vec<gherkin::Step>, line: usize) -> gherkin::Background {
     gherkin::Background {
         keyword: "Background".into(),
@@ -394,7 +402,7 @@ pub fn gen_case(t: &mut Tape, p: &Profile) -> RCase {
         let bgsteps: Vec<gherkin::Step> = (0..nbg)
             .map(|i| {
                 let c = class(t);
-                mkstep(format!("{c} {fname}.bg{i}"), bg_line + 1 + i, t.pick(3))
+                mkstep_kw(c, format!("{fname}.bg{i}"), bg_line + 1 + i, t.pick(3))
             })
             .collect();
         for s in &bgsteps {
@@ -423,7 +431,7 @@ pub fn gen_case(t: &mut Tape, p: &Profile) -> RCase {
             let steps: Vec<gherkin::Step> = (0..ns)
                 .map(|i| {
                     let c = class(t);
-                    mkstep(format!("{c} {name}.{i}"), sl + 1 + i, t.pick(3))
+                    mkstep_kw(c, format!("{name}.{i}"), sl + 1 + i, t.pick(3))
                 })
                 .collect();
             for s in &steps {
@@ -472,7 +480,7 @@ pub fn gen_case(t: &mut Tape, p: &Profile) -> RCase {
             let rsteps: Vec<gherkin::Step> = (0..rbg)
                 .map(|i| {
                     let c = class(t);
-                    mkstep(format!("{c} {rname}.bg{i}"), rbg_line + 1 + i, t.pick(3))
+                    mkstep_kw(c, format!("{rname}.bg{i}"), rbg_line + 1 + i, t.pick(3))
                 })
                 .collect();
             for s in &rsteps {
@@ -669,6 +677,7 @@ pub fn gen_case(t: &mut Tape, p: &Profile) -> RCase {
 fn step_info(bg: bool, s: &gherkin::Step) -> StepInfo {
     let class = match s.value.split(' ').next() {
         Some("amb" | "dup") => "amb",
+        Some("thn") => "ok",
         Some("none") => "none",
         _ => "ok",
     };
